@@ -327,6 +327,55 @@ func TestC15(t *testing.T) {
 	badFlags := []string{"-includeNames=e_no_such_lint", "-excludeNames=e_ca_country_name_missing,bogus", "-includeSources=NotASource", "-excludeSources=RFC5280,Nope",
 		"-nameFilter=(", "-profile=no_such_profile", "-format=xml", "-config=/nonexistent/verif.toml"}
 	cliConfigMatrix(t, rec, cli, stats.Scale(2, 6), "")
+	// enumerated: every corpus certificate in every input format (PEM, DER, base64), and every corpus CRL in
+	// PEM armour, six files per invocation - whatever shape the library lints, the tool must print the same
+	{
+		type group struct {
+			fmt  string
+			objs []gen.Obj
+		}
+		var groups []group
+		for _, f := range []string{"pem", "der", "base64"} {
+			var cur []gen.Obj
+			for _, o := range co.Certs {
+				cur = append(cur, o)
+				if len(cur) == 6 {
+					groups = append(groups, group{f, cur})
+					cur = nil
+				}
+			}
+			if len(cur) > 0 {
+				groups = append(groups, group{f, cur})
+			}
+		}
+		for i := 0; i < len(co.CRLs); i += 6 {
+			groups = append(groups, group{"pem", co.CRLs[i:min(i+6, len(co.CRLs))]})
+		}
+		for gi, g := range groups {
+			if !stats.Mine(gi) {
+				continue
+			}
+			c := c15Case{Format: g.fmt, Output: "default"}
+			for _, o := range g.objs {
+				c.Inputs = append(c.Inputs, c15Input{Kind: o.Kind, DER: o.DER, Encoding: g.fmt, Delivery: "file", Base: o.Name})
+			}
+			dir, err := os.MkdirTemp("", "verif-c15-")
+			if err != nil {
+				continue
+			}
+			sig, msg := judgeC15(rec, c, cli, dir)
+			os.RemoveAll(dir)
+			rec.Eval()
+			rec.Class("corpus_enumerated_" + g.fmt)
+			rec.NT(stats.HashS("corpus", g.fmt, g.objs[0].Name))
+			if msg != "" {
+				if rec.Report("c15", sig, msg, c) {
+					t.Fatalf("c15 corpus group %d (%s, first %s): %s: %s", gi, g.fmt, g.objs[0].Name, sig, msg)
+				}
+			}
+		}
+		rec.Exhaustive("every corpus certificate x {pem, der, base64} and every corpus CRL (pem) through the CLI", true)
+	}
 	rapidRun(t, "invocations", perShard(stats.Scale(420, 40000)), func(rt *rapid.T) {
 		dir, err := os.MkdirTemp("", "verif-c15-")
 		if err != nil {
